@@ -284,7 +284,6 @@ impl DateTimePrinter {
     ) -> Result<(), Error> {
         static FMT_TWO: DecimalFormatter = DecimalFormatter::new().padding(2);
 
-        wtr.write_str(if offset.is_negative() { "-" } else { "+" })?;
         let mut hours = offset.part_hours_ranged().abs().get();
         let mut minutes = offset.part_minutes_ranged().abs().get();
         // RFC 3339 requires that time zone offsets are an integral number
@@ -308,6 +307,11 @@ impl DateTimePrinter {
                 minutes = minutes.saturating_add(1);
             }
         }
+        // A negative offset that rounds to zero must not be written as
+        // `-00:00`, since that has a special meaning in RFC 3339 (and is
+        // reserved for `PiecesOffset`).
+        let negative = offset.is_negative() && (hours != 0 || minutes != 0);
+        wtr.write_str(if negative { "-" } else { "+" })?;
         wtr.write_int(&FMT_TWO, hours)?;
         wtr.write_str(":")?;
         wtr.write_int(&FMT_TWO, minutes)?;
